@@ -2514,8 +2514,9 @@ fn generate_constraints_expr(
             for expr in exprs {
                 if let Mode::Ana { expected, .. } = &mode
                     && let Some(PotentialType::Nominal(_, Nominal::Array, args)) = expected.single()
+                    && let Some(arg) = args.first()
                 {
-                    generate_constraints_expr(ctx, polyvar_scope, Mode::ana(args[0].clone()), expr);
+                    generate_constraints_expr(ctx, polyvar_scope, Mode::ana(arg.clone()), expr);
                 } else {
                     generate_constraints_expr(ctx, polyvar_scope, Mode::ana(elem_ty.clone()), expr);
                 }
